@@ -143,7 +143,9 @@ theorem step_canon (bits : ℕ) (regs : Regs) (h : AllCanon bits regs) (op : Op)
   History.step_canon bits regs h op hv
 
 /-- **closure**: after any finite history of modelled safe operations on canonical registers, every
-    register is canonical. -/
+    register is canonical (40 producers: constants, C01 add/sub/neg, C02 mul, C05 shifts/rotates, C06 bit
+    operations, Ord min/max, C07 conversions and limb-slice constructors, C08 decoders and round trips,
+    generator fills). -/
 theorem run_canon (bits : ℕ) (hist : List Op) (regs : Regs) (h : AllCanon bits regs)
     (hv : ∀ op ∈ hist, op.Valid) : AllCanon bits (run bits regs hist) := by
   unfold run
